@@ -8,7 +8,7 @@ import json
 
 from .sx import d_int
 from . import c06
-from .c06 import (World, new_registry, safe_collect, Tokens, enc_env, model_ops, dec_family, canon_family, TARGET_FAMILY, TI,
+from .c06 import (World, new_registry, safe_collect, Tokens, enc_envs, model_steps, dec_family, canon_family, TARGET_FAMILY, TI,
                   builtin, described, undescribed, fam)
 
 RULE = ('registries reached by C06 histories (fixed clash-rich collector sets in several registration orders with '
@@ -22,7 +22,8 @@ TRUSTED = ['CPython set iteration order is unspecified: restricted collections a
            'urllib.parse.parse_qs / urlencode, wsgiref-free direct calls of the WSGI/ASGI callables, asyncio.run',
            'text and OpenMetrics exposition used only to compare name[] output with the exposition of the restricted '
            'registry, family block by family block']
-ASSUMPTIONS = ['well_described (every sample name a collector yields is among the names it claims) for the equality '
+ASSUMPTIONS = ['the names a collector claims are those it was registered under (collectors may change during a history)',
+               'well_described (every sample name a collector yields is among the names it claims) for the equality '
                'restricted = filter(full); without it only restricted <= filter(full) and = filter over the claimants',
                'collectors do not change between the full and the restricted collection']
 TIME_BUDGET = {'quick': 80, 'thorough': 900}
@@ -112,19 +113,33 @@ def spec_state(case, outcomes):
                 keys.append(op[1])
         elif op[0] == 'unreg':
             keys = [k for k in keys if k != op[1]]
-        else:
+        elif op[0] == 'sti':
             ti = [list(kv) for kv in sorted((op[1] or {}).items())]
     return keys, ti
 
 
 def impl(case):
+    try:
+        obs = impl_here(case)
+    finally:
+        c06.set_created(True)        # op created switches an interpreter-wide setting
+    c06.remember(case, obs)
+    return obs
+
+
+def impl_here(case):
     from prometheus_client.exposition import generate_latest
     from prometheus_client.openmetrics.exposition import generate_latest as om_latest
     w = World(case)
     r = new_registry(case)
     nss = case['namesets']
     early = [r.restricted_registry(list(ns)) for ns in nss] if case.get('early') else None
-    outcomes = [w.apply(r, op) for op in case['ops']]
+    held = c06.Held()       # the names each collector was registered under (it may describe others by now)
+    outcomes = []
+    for op in case['ops']:
+        mine = w.claims(op[1], case['auto']) if op[0] == 'reg' else set()
+        outcomes.append(w.apply(r, op))
+        held.update(op, outcomes[-1], mine)
     viol = []
     del w.log[:]
     full_metrics = safe_collect(r)
@@ -138,7 +153,7 @@ def impl(case):
     elif full != exp_full:
         viol.append('collect() yielded %s, expected %s' % (json.dumps(full)[:300], json.dumps(exp_full)[:300]))
     auto = case['auto']
-    claims = {c: w.claims(c, auto) for c in keys}
+    claims = {c: held.of(c) for c in keys}
     well = all(s[0] in claims[c] for c in keys for f in w.env[c][1] for s in f[4])
     ti_part = [TARGET_FAMILY(ti)] if ti else []
     restricted = []
@@ -184,16 +199,18 @@ def impl(case):
                 if body != exp_blocks:
                     viol.append('names %s via %s/%s name[]: served %s, restricted registry exposes %s'
                                 % (ns, how, fmt, body[:4], exp_blocks[:4]))
-    return {'full': [seq, full], 'restricted': restricted, 'viol': viol, 'outcomes': outcomes, 'well': well}
+    return {'full': [seq, full], 'restricted': restricted, 'viol': viol, 'outcomes': outcomes, 'well': well,
+            'envs': [[[d, f] for d, f in env] for env in w.envs], 'step_env': w.step_env}
 
 
 ORIG = False
 
 
 def model(m, case):
-    w = World(case)
+    envs, step_env = c06.history_of(case, impl)
     tk = Tokens()
-    rep = m.call('c07_run', ORIG, case['auto'], enc_env(w, tk), model_ops(case), [list(ns) for ns in case['namesets']])
+    rep = m.call('c07_run', ORIG, case['auto'], enc_envs(envs, tk), model_steps(case, step_env), len(envs) - 1,
+                 [list(ns) for ns in case['namesets']])
     keys, fams, rs = rep
     return {'full': [[d_int(c) for c in keys], [dec_family(f, tk) for f in fams]],
             'restricted': [[sorted(d_int(c) for c in called), msort([dec_family(f, tk) for f in fs])] for called, fs in rs]}
@@ -355,7 +372,7 @@ def cases(ctx):
                 colls = [c if c['k'] == 'builtin' else
                          described(*[c06.gen_family(rng, True) for _ in range(rng.randrange(1, 4))]) for c in colls]
         case = {'auto': rng.random() < 0.5, 'init_ti': rng.choice([None, None, {'a': 'b'}]), 'colls': colls,
-                'ops': c06.gen_history(rng, len(colls), rng.choice([3, 5, 8, 12, 20])), 'namesets': [],
+                'ops': c06.gen_history(rng, len(colls), rng.choice([3, 5, 8, 12, 20]), colls), 'namesets': [],
                 'early': rng.random() < 0.3, 'http': None}
         if rng.random() < 0.5:       # bias towards registries that hold something
             case['ops'] = [['reg', i] for i in range(len(colls))] + case['ops']
